@@ -23,11 +23,22 @@ def sh(cmd, **kw):
     return subprocess.run(cmd, shell=isinstance(cmd, str), **kw)
 
 
+_CREATED = []
+
+
 def workdir(name):
     d = os.path.join(WORK, name)
     shutil.rmtree(d, ignore_errors=True)
     os.makedirs(d, exist_ok=True)
+    _CREATED.append(d)
     return d
+
+
+def cleanup_workdirs():
+    if os.environ.get("VERIF_KEEP"):
+        return
+    for d in _CREATED:
+        shutil.rmtree(d, ignore_errors=True)
 
 
 # ------------------------------------------------------------------------------------------ build
